@@ -7,6 +7,7 @@ import (
 	"io"
 	"reflect"
 	"strings"
+	"time"
 	"unicode/utf8"
 
 	cedar "github.com/cedar-policy/cedar-go"
@@ -417,8 +418,9 @@ func allDocs() []doc {
 
 func Check() *core.Check {
 	return &core.Check{
-		ID:    "C18",
-		Title: "Streaming decode is chunking-invariant and source positions are exact",
+		ID:        "C18",
+		HangAfter: 120 * time.Second, // cases take at most seconds (max_case_s in the evidence); see core.Family.HangAfter
+		Title:     "Streaming decode is chunking-invariant and source positions are exact",
 		Rule: "deviation-bounded exploration of reader schedules (each Read may return the full request, 1, 2, 3, len-1 or 0 bytes, or data together with io.EOF) on documents built with known offsets (every token kind straddling the 1024-byte buffer edge at every alignment, multi-byte characters, CR/LF mixes, comments), plus every uniform chunk size 1..1030 and a reader failure at every byte offset; oracle: the whole-slice parse (policies, positions, error-ness) and the positions computed from the construction of the document; " +
 			"a case is non-trivial if the document parses to at least one policy or exercises an error path",
 		Assumptions: []string{"a reader never returns 0 bytes twice in a row (a reader that returns (0, nil) forever violates io.Reader's contract)", "for documents that do not parse only error-ness and the error text are compared"},
